@@ -1,0 +1,25 @@
+//go:build verif
+
+// Contracts for the deductive verifier (/verif/engine). Comment-only file:
+// with the verif tag off it is not compiled, with it on it adds nothing but a
+// package clause. Syntax: see /verif/DESIGN.md, Appendix B.
+
+package sipsp
+
+//@ func skipCRLF(buf, offs) (n, crl, err)
+//@   requires  bufOK(buf) && 0 <= offs && offs <= len(buf)
+//@   ensures   err == ErrHdrOk ==> (crl == 1 || crl == 2) && n == offs+crl && n <= len(buf)
+//@   ensures   err != ErrHdrOk ==> n == offs && crl == 0
+//@   ensures   err == ErrHdrOk || err == ErrHdrMoreBytes || err == ErrHdrNoCR
+//@   ensures   err == ErrHdrMoreBytes <==> (offs+1 >= len(buf) && (offs >= len(buf) || isCRLF(buf[offs])))
+//@   ensures   err == ErrHdrOk ==> isCRLF(buf[offs])
+
+//@ func skipWS(buf, offs) (r)
+//@   requires  bufOK(buf) && 0 <= offs && offs <= len(buf)
+//@   loop 0 "for ; offs < len(buf) && (buf[offs] == ' ' || buf[offs] == '\t'); offs++"
+//@     invariant offs0 <= offs && offs <= len(buf)
+//@     invariant forall(k, offs0, offs, isWS(buf[k]))
+//@     decreases len(buf) - offs
+//@   ensures   offs <= r && r <= len(buf)
+//@   ensures   forall(k, offs, r, isWS(buf[k]))
+//@   ensures   r == len(buf) || !isWS(buf[r])
